@@ -161,6 +161,10 @@ class StreamReversed(StreamWrapper):
     
     def _read(self, size: int) -> bytes:
         raw = super()._read(size)
+        if len(raw) < size:
+            # the block is incomplete (damaged header or truncated image): its
+            # reversal would have to start with the bytes that are missing
+            return bytes()
 
         arr = np.frombuffer(raw, np.dtype("int8"))
         num_cols = self.sample_width
